@@ -1030,6 +1030,7 @@ class C09Checker(Checker):
                 elif f["kind"] == "NBC_FarEnough" and g["kind"] in ("NBC", "NBCLocal"):
                     self.far.append(("NBC_FarEnough", f["factor"], f.get("norm_ord", 2), bool(f.get("check_only_active", False))))
         self.moved_rounds = 0
+        self.clone_rounds = 0
         self.checked_seeds = 0
         self.first_centroid: dict[str, np.ndarray] = {}
 
@@ -1069,6 +1070,41 @@ class C09Checker(Checker):
                     md = ref_nbc_mean_distance([g for g, _, _ in pop], [f for _, f, _ in pop], bool(self.sc["maximize"]), self.nbc_params[1])
                     if md is None or not np.isfinite(md):
                         continue
+                    # A population may hold clones (identical genomes). The clustering is only defined for pairwise
+                    # distinct genomes (C15): whether a clone contributes its distance once or twice to the mean is
+                    # unspecified, so the more permissive of the two readings is the threshold that is enforced.
+                    seen_g, dg, df = set(), [], []
+                    for g, f, _ in pop:
+                        key = np.asarray(g).tobytes()
+                        if key not in seen_g:
+                            seen_g.add(key)
+                            dg.append(g)
+                            df.append(f)
+                    if len(dg) != len(pop):
+                        self.clone_rounds += 1
+                        md2 = ref_nbc_mean_distance(dg, df, bool(self.sc["maximize"]), self.nbc_params[1]) if len(dg) >= 2 else None
+                        if md2 is None or not np.isfinite(md2):
+                            continue
+                        md = min(md, md2)
+                        # truncation floor(n*t) also differs between the two readings: stay on the safe side
+                        md3 = ref_nbc_mean_distance(dg, df, bool(self.sc["maximize"]), 1.0)
+                        if md3 is not None and np.isfinite(md3):
+                            md = min(md, md3)
+                        # third reading: truncate the population with its clones, then keep distinct genomes
+                        mx = bool(self.sc["maximize"])
+                        order = sorted(range(len(pop)), key=lambda i: (-pop[i][1] if mx else pop[i][1]))
+                        kept, seen_k = [], set()
+                        for i in order[: int(len(pop) * self.nbc_params[1])]:
+                            key = np.asarray(pop[i][0]).tobytes()
+                            if key not in seen_k:
+                                seen_k.add(key)
+                                kept.append(i)
+                        if len(kept) >= 2:
+                            md4 = ref_nbc_mean_distance([pop[i][0] for i in kept], [pop[i][1] for i in kept], mx, 1.0)
+                            if md4 is not None and np.isfinite(md4):
+                                md = min(md, md4)
+                        else:
+                            continue
                     threshold = thr * md
                 else:
                     threshold = thr
